@@ -388,10 +388,12 @@ pub fn run(run: &mut Run) {
     }
     run.assumptions.push("'equals' is checked within cdf_tol(dof, c) = 8 (2e-14 + 1e-15 dof) + 0.4 min(4e-13 dof / (2|c|), sqrt(4e-13 dof)) on the t branch and 2e-15 on the normal branch: the measured accuracy envelope of statrs 0.18's inverse CDF (DESIGN §4.3); slips inside that envelope are invisible".into());
     run.assumptions.push("within 2 of 100 000 degrees of freedom either branch is accepted".into());
+    crate::props::history::add(run, "C06", &crate::props::history::ALL, 3_000, 200_000);
 }
 
 pub fn replay(sub: &str, v: &Value, obs: &mut Obs) -> Option<PResult> {
     Some(match sub {
+        "history" => crate::props::history::case(&de(v), obs),
         "mean" | "mean_merged" => probe_case(&de(v), obs),
         "mean_random" => {
             let n = v["n"].as_u64().unwrap_or(2);
